@@ -220,6 +220,15 @@ def run(R):
                     elif wc.judge(ys, big, case["roots"] and [tuple(r) for r in case["roots"]]):
                         R.violation(case, "bulk walk across a reboot: %r" % (rig.jsonable(wc.judge(ys, big, [tuple(r) for r in case["roots"]])[:3]),), None)
     if R.shard == 0:
+        # more than 50000 instances in ONE walk over two adjacent columns
+        huge = {}
+        for r in range(1, 26001):
+            huge[(1, 3, 11, 2, 1, r)] = ("int", r)
+            huge[(1, 3, 11, 3, 1, r)] = ("int", -r)
+        run_one(R, "v2c", [(1, 3, 11, 2), (1, 3, 11, 3)], huge, "bulkwalk", 100, "full", 1, "huge")
+        R.mon["walks_of_more_than_50000_instances"] += 1
+        del huge
+    if R.shard == 0:
         corner = [
             ([(1, 3, 1), (1, 3, 2)], {(1, 3, 2, 1): ("int", 1), (1, 3, 2, 2): ("int", 2), (1, 3, 3, 0): ("int", 3)}),
             ([(1, 3, 2), (1, 3, 1)], {(1, 3, 1, 1): ("int", 1)}),
